@@ -13,6 +13,7 @@ import GeckoModel.Generated.ThreadedFacts
 import GeckoModel.Proofs.Coop
 import GeckoModel.Generated.Skeletons
 
+import GeckoModel.Proofs.Cancel
 namespace GeckoModel.C01
 open GeckoModel GeckoModel.Generated
 
@@ -238,5 +239,16 @@ installation on which the segment in hand was NOT in sequence -/
 example : Coop.onlyUnderBothGuards (Coop.isAwaitOf "w") (Coop.isBranch true "in-sequence") (Coop.isBranch true "final") (Coop.isCallOf "install")
     (.loop (.seq (.ev (.aw "w")) (.seq (.alt (.ev (.act ⟨.brT, "in-sequence"⟩)) (.ev (.act ⟨.brF, "in-sequence"⟩)))
       (.alt (.seq (.ev (.act ⟨.brT, "final"⟩)) (.ev (.act ⟨.call, "install"⟩))) (.ev (.act ⟨.brF, "final"⟩)))))) = false := by decide +kernel
+
+/-! ### the blocking client's refresh (session glue) -/
+
+/-- **the blocking client refreshes only when connected**: in `GeckoSpa.refresh` (called by the ping thread once per ping period and
+by the shell) a sequence number is drawn and a request handed to the structure only on the path on which `not self.is_connected` was
+found false - during the hand-shake the shared assembly state of the outstanding full-block request is left alone (round 15) -/
+theorem refresh_only_when_connected :
+    Coop.onlyUnderBothGuards (fun _ => false) (Coop.isBranch false "not self.is_connected") (Coop.isBranch false "not self.is_connected")
+      (Coop.isCallOf "self.struct.retry_request") Skeletons.sk_spa__GeckoSpa_refresh = true ∧
+    Coop.onlyUnderBothGuards (fun _ => false) (Coop.isBranch false "not self.is_connected") (Coop.isBranch false "not self.is_connected")
+      (Coop.isCallOf "self.get_and_increment_sequence_counter") Skeletons.sk_spa__GeckoSpa_refresh = true := by decide +kernel
 
 end GeckoModel.C01
